@@ -374,7 +374,7 @@ impl Property for C18 {
     }
     fn budget(&self, tier: Tier) -> Budget {
         match tier {
-            Tier::Quick => Budget { cases: 5000, shards: 16, min_len: 24, max_len: 80 },
+            Tier::Quick => Budget { cases: 15_000, shards: 16, min_len: 24, max_len: 80 },
             Tier::Thorough => Budget { cases: 150_000, shards: 16, min_len: 24, max_len: 80 },
         }
     }
